@@ -1,6 +1,8 @@
 import Ymq.Props.C01
 import Ymq.Props.C01Closed
 import Ymq.Props.C01Closed2
+import Ymq.Props.C01Closed3
+import Ymq.Props.C03Rho
 #print axioms Ymq.C01.factor_no_one
 #print axioms Ymq.C01.factor_sound
 #print axioms Ymq.C01.retain_residue_one
@@ -17,3 +19,20 @@ import Ymq.Props.C01Closed2
 #print axioms Ymq.C01.trial_divided_noSmall
 #print axioms Ymq.C01.squfofModel_exactSeed
 #print axioms Ymq.C01.qs64_model_violates_oracleOK_clause
+#print axioms Ymq.C01.usesPerfectPower_of_model
+#print axioms Ymq.C01.usesRho64_of_model
+#print axioms Ymq.C01.oracleOK_of_models_v3
+#print axioms Ymq.C01.factor_exact_closed_v3
+#print axioms Ymq.C01.factor_total_closed_v3
+#print axioms Ymq.C01.pp_none_not_tried_power
+#print axioms Ymq.C03Rho.rho64_no_panic
+#print axioms Ymq.C03Rho.rho_no_panic
+#print axioms Ymq.C03Rho.rho_no_panic_call_site
+#print axioms Ymq.C03Rho.rho_proper
+#print axioms Ymq.C03Rho.rho_uses_rho64
+#print axioms Ymq.C03Rho.rho_large_none
+#print axioms Ymq.C03Rho.rho_prime_none
+#print axioms Ymq.C03Rho.rho_prime_square
+#print axioms Ymq.C03Rho.rho_semiprime_no_panic
+#print axioms Ymq.C03Rho.rho_semiprime_proper
+#print axioms Ymq.C03Rho.noSmall_below_top
